@@ -104,7 +104,18 @@ Definition check_1311 (fs : list field) : verdict :=
     match decode_top Sc root b with
     | None => VSkip
     | Some m =>
-      if negb (bytes_eqb (encode_msg m) b) then VSkip else          (* unknown fields / non-canonical wire form *)
+      (* no unknown fields and nothing the decoder had to repair: either b is the canonical encoding of m, or it differs from it
+         only in wire-form choices the decoder normalises (a packed-declared repeated scalar arriving unpacked): stripping
+         undeclared records changes nothing and re-decoding the canonical encoding gives the same message *)
+      if negb (if bytes_eqb (encode_msg m) b then true
+               else match strip_unknown Sc (Datatypes.S (length b)) root b with
+                    | Some sb =>
+                      if bytes_eqb sb b
+                      then match decode_top Sc root (encode_msg m) with Some m' => if msg_eqv m m' then msg_eqv m' m else false | None => false end
+                      else false
+                    | None => false
+                    end)
+      then VSkip else
       let m0 := m_drop_negzero m in
       match model_rt Sc root m0 with
       | None => VSkip                                               (* no JSON image, or the j2p spec leaves its reading open *)
